@@ -36,6 +36,12 @@ func (m *Machine) unop(instr *ssa.UnOp, x value) value {
 }
 
 func (m *Machine) binop(op token.Token, t types.Type, x, y value) value {
+	if _, sf := x.(symFloat); sf {
+		return m.symFloatOp(op)
+	}
+	if _, sf := y.(symFloat); sf {
+		return m.symFloatOp(op)
+	}
 	_, xs := x.(symStr)
 	_, ys := y.(symStr)
 	if xs || ys {
@@ -273,8 +279,7 @@ func (m *Machine) conv(tdst, tsrc types.Type, x value) value {
 			}
 			if db.Info()&types.IsFloat != 0 {
 				if !xv.IsConst() {
-					m.incon = append(m.incon, "symbolic int->float")
-					m.abort("symbolic int to float conversion")
+					return symFloat{}
 				}
 				_, ssigned, _ := intWidth(us)
 				if ssigned {
@@ -289,6 +294,12 @@ func (m *Machine) conv(tdst, tsrc types.Type, x value) value {
 				return string(rune(xv.Val))
 			}
 		}
+	case symFloat:
+		if db, ok := ud.(*types.Basic); ok && db.Info()&types.IsFloat != 0 {
+			return xv
+		}
+		m.incon = append(m.incon, "symbolic float converted to a non-float")
+		m.abort("symbolic float -> %v", tdst)
 	case float64:
 		if db, ok := ud.(*types.Basic); ok {
 			if db.Info()&types.IsFloat != 0 {
@@ -660,4 +671,18 @@ func strOf(v value) string {
 		return "<" + v.format + ">"
 	}
 	return fmt.Sprint(v)
+}
+
+// symFloat is a float computed from symbolic integers. Only its existence is
+// tracked (progress percentages in log messages); comparing it aborts the path.
+type symFloat struct{}
+
+func (m *Machine) symFloatOp(op token.Token) value {
+	switch op {
+	case token.ADD, token.SUB, token.MUL, token.QUO:
+		return symFloat{}
+	}
+	m.incon = append(m.incon, "comparison of a symbolic float")
+	m.abort("comparison of symbolic float")
+	return nil
 }
